@@ -9,10 +9,24 @@ is compared with the snapshot (an oracle written from the .proto field names, in
 Auth: real GRPCService.metadata() with the configured provider; the requests of LongPoll.poll and
 PushService._push_task are captured at scripted stubs."""
 import base64
+import enum
+import http
 import threading
 
 from ..lib import e1
 from ..lib import e5
+
+
+class _Colour(str, enum.Enum):
+    RED = "red"
+
+
+class _Ratio(float):
+    pass
+
+
+class _Label(str):
+    pass
 
 
 def sanitize(t):
@@ -174,6 +188,11 @@ def auth_cases(ctx):
              [("authorization", "Basic%20" + base64.b64encode("bob:pw:é".encode()).decode())]),
             ({"SERVICE_AUTH_PROVIDER": "deep.api.auth.BasicAuthProvider"}, []),
             ({"SERVICE_AUTH_PROVIDER": "harness.props.c08.Token"}, [("authorization", "Bearer tok-/app"), ("x-extra", "1")]),
+            # what the provider provides is attached whatever the transport setting says
+            ({"SERVICE_AUTH_PROVIDER": "harness.props.c08.Token", "SERVICE_SECURE": "False"}, [("authorization", "Bearer tok-/app"), ("x-extra", "1")]),
+            ({"SERVICE_AUTH_PROVIDER": "harness.props.c08.Token", "SERVICE_SECURE": False}, [("authorization", "Bearer tok-/app"), ("x-extra", "1")]),
+            ({"SERVICE_AUTH_PROVIDER": "deep.api.auth.BasicAuthProvider", "SERVICE_USERNAME": "u", "SERVICE_PASSWORD": "p", "SERVICE_SECURE": "no"},
+             [("authorization", "Basic%20" + base64.b64encode(b"u:p").decode())]),
         ]
         for custom, want in configs:
             cfg = ConfigService(dict(custom, APP_ROOT="/app", SERVICE_URL="localhost:1"), tracepoints=TracepointConfigService())
@@ -287,6 +306,9 @@ def run(ctx):
                 s.log_msg = rng.choice(["[deep] plain", "[deep] \ud83d alone", "", "[deep] é日本"])
             elif variation == "attrs":
                 s.attributes.merge_in({"t": ("a", "b"), "n": 5, "f": 1.5, "b": True, "seq": [1, 2, 3], "s": "x"})
+                # values that are instances of SUBCLASSES of the supported types are admitted by the store: they arrive too
+                s.attributes.merge_in({"status": http.HTTPStatus.OK, "colour": _Colour.RED, "ratio": _Ratio(2.5), "label": _Label("lbl"),
+                                       "codes": (http.HTTPStatus.OK, http.HTTPStatus.NOT_FOUND)})
             elif variation == "huge":
                 for q in range(3000):
                     s.var_lookup[str(10000 + q)] = Variable("int", str(q), str(q), [VariableId(str(10000 + q), "self%d" % q)], False)
